@@ -391,7 +391,7 @@ def observe(text, shape, entry, only=None, loader=None, scan=True):
     for i in range(len(shape['titles']) if scan else 0):
         lib.call_catch(ex.get_sheet, i)
     if _canary():
-        sym['code_executed'] = 'canary (builtins.%s) set while the cells were evaluated' % CANARY
+        sym['code_executed'] = 'canary (builtins.%s / re.%s) set while the cells were evaluated' % (CANARY, CANARY_SHORT)
     _canary_reset()
     return {'symptoms': sym, 'skeleton': skel, 'checked': checked}
 
@@ -590,6 +590,16 @@ def _random_strings(rng, count, lo, hi):
     return out
 
 
+def _samples(pos_texts, route):
+    out = []
+    with lib.scratch() as d:
+        for pos, x in pos_texts[:3]:
+            r = item(pos, x, route, d, False, False)
+            out.append({'position': pos, 'text': x[:120], 'cells_compared': r['evaluations'], 'formulas_refused': r['rejected'],
+                        'result': sorted({f[0] for f in r['fails']}) or 'inert, values exact'})
+    return out
+
+
 def _check_entry(name, bound, rule, exhaustive, totals, fails, samples, t0):
     return {'name': name, 'bound': bound, 'rule': rule, 'exhaustive': exhaustive, 'evaluations': totals['evaluations'],
             'distinct_nontrivial': totals['accepted'], 'failures': fails, 'samples': samples[:3], 'seconds': round(time.time() - t0, 2),
@@ -638,7 +648,7 @@ def sweep_alphabet(tier, seed):
                         "constants and a quoted reference 's'!A1"}[pos]
             + '; whole-file translation for all, entry-point translation for lengths <= 2 and 100 random strings; Excel object built in '
               'memory, every reported failure replayed through an xlsx file and the public Parser/Executor',
-            RULE, True, total, fails, [{'text': x, 'position': pos} for x in (strings[5], strings[-1], extra[0])], t0))
+            RULE, True, total, fails, _samples([(pos, strings[0]), (pos, strings[len(ALPHABET) + 2]), (pos, extra[0])], 'mem'), t0))
     return checks
 
 
@@ -698,7 +708,7 @@ def sweep_payloads(tier, seed):
             + ('; complete formulas whose text between two string literals is a call; text cells whose content starts with ='
                if pos in ('ftext', 'textcell') else '')
             + f') in position {pos}, xlsx file -> Parser -> Executor; safety check on and off, whole-file and entry-point translation',
-            RULE, False, total, fails, [{'text': s[:80], 'position': pos} for s in tx[:3]], t0))
+            RULE, False, total, fails, _samples([(pos, tx[0]), (pos, tx[min(len(tx) - 1, len(BENIGN))]), (pos, tx[-1])], 'pub'), t0))
     return checks
 
 
